@@ -136,6 +136,8 @@ func (g *Gen) drawBurst() []txgen.Tx {
 		return g.VoteBurst()
 	case gov >= 5 && r < 3:
 		return g.ProposalVoteBurst()
+	case gov >= 5 && r < 5, k == nil && r == 3:
+		return g.ProposalOptionsPair()
 	case k == nil && r == 0:
 		return g.VoteBurst()
 	case k == nil && r == 1:
